@@ -77,7 +77,12 @@ class RealMux:
     def enq(self, sid, fid, k):
         from rsocket.frame_builders import to_payload_frame, to_request_n_frame
         from rsocket.payload import Payload
-        if k == 1 and fid % 2 == 0:
+        if sid == 0:
+            # a connection-level frame (KEEPALIVE, queued by the keep-alive task / as an echo): never fragmented, written once
+            from rsocket.frame_builders import to_keepalive_frame
+            f = to_keepalive_frame(bytes([fid]) * 8)
+            self.meta[fid] = (0, 1, ('KEEPALIVE', fid))
+        elif k == 1 and fid % 2 == 0:
             f = to_request_n_frame(sid, fid)
             self.meta[fid] = (sid, k, ('REQUEST_N', fid))
         else:
@@ -124,7 +129,7 @@ class RealMux:
             want = [f for s, f in self.enq_log if s == sid]
             runs = []           # [fid, closed]
             for (s, f, follows) in self.wire:
-                if s != sid:
+                if s != sid or (s == 0 and f == 0):         # (the SETUP frame is not a queued stream-0 frame of the model)
                     continue
                 if runs and not runs[-1][1]:
                     if runs[-1][0] != f:
@@ -136,6 +141,12 @@ class RealMux:
             got = [r[0] for r in runs]
             if got != want[:len(got)]:
                 return ('C05.per_stream_queueing_order', 'stream %d: frames reached the wire in the order %s, queued in the order %s' % (sid, got, want))
+        once = set()
+        for k, (s_, f_, follows) in enumerate(self.wire):
+            if s_ == 0 and f_ != 0:
+                if f_ in once:
+                    return ('C15.echo_exactly_once_same_data_flag_cleared', 'the connection-level frame %d was written twice' % f_)
+                once.add(f_)
         seen = {}
         for (rs, rf, content) in self.out:
             if rs == 0:
@@ -156,7 +167,7 @@ class RealMux:
         if isinstance(f, RequestNFrame):
             return f.request_n
         d = f.data or b''
-        return d[0] if d else -1
+        return d[0] if d else -1            # (KEEPALIVE frames carry the frame id in their data as well)
 
     def queue(self):
         res = []
@@ -167,7 +178,7 @@ class RealMux:
 
     # --- Recv
     def recv(self):
-        from rsocket.frame import parse_or_ignore, SetupFrame, RequestNFrame
+        from rsocket.frame import parse_or_ignore, SetupFrame, RequestNFrame, KeepAliveFrame
         if self.rpos >= len(self.written):
             return              # (drifted implementation)
         raw = self.written[self.rpos]
@@ -178,6 +189,9 @@ class RealMux:
             return
         if isinstance(f, RequestNFrame):
             self.out.append((f.stream_id, f.request_n, ('REQUEST_N', f.request_n)))
+            return
+        if isinstance(f, KeepAliveFrame):
+            self.out.append((0, (f.data or b'\xff')[0], ('KEEPALIVE', (f.data or b'\xff')[0])))
             return
         whole = self.cache.append(f)
         if whole is not None:
@@ -272,3 +286,4 @@ def check(v):
     thorough = common.tier() == 'thorough'
     model_check(v, thorough)
     replay_graph(v)
+    replay_graph(v, cfg='Mux_conn.cfg')         # connection-level frames (stream 0) next to one stream
